@@ -23,7 +23,7 @@ EXPLANATION = (
     'defaults go through apply; (e) Enum extension validates every value '
     'against the base, Schema compatibility requires equal key sets.  The '
     'containment between acceptance sets itself is not decided.')
-FLOORS = {'C04.r': 40, 'C04.a': 9, 'C04.b': 6, 'C04.c': 6, 'C04.d': 1, 'C04.e': 2, 'C04.f': 4, 'C04.g': 2, 'C04.h': 2}
+FLOORS = {'C04.i': 3, 'C04.r': 40, 'C04.a': 9, 'C04.b': 6, 'C04.c': 6, 'C04.d': 1, 'C04.e': 2, 'C04.f': 4, 'C04.g': 2, 'C04.h': 2}
 FILES = ['pyglove/core/typing/value_specs.py', 'pyglove/core/typing/class_schema.py',
          'pyglove/core/typing/key_specs.py', 'pyglove/core/typing/type_conversion.py']
 VS = 'pyglove.core.typing.value_specs.'
@@ -556,8 +556,63 @@ def rule_h(ctx):
     raise AnalysisError('bound inheritance tests not found')
 
 
+def rule_i(ctx):
+  """(i) A frozen spec accepts its frozen value and nothing else - not even None
+  for a noneable one: in ValueSpecBase.apply no normal return precedes the
+  frozen test (Enum.is_compatible's frozen shortcut and the frozen-extends-Enum
+  branch of extend both rely on it).  (j) An overriding field belongs to the
+  class that overrides it: Field._origin is written only by the constructor and
+  set_origin (Schema.merge ranks inherited copies by origin).  (k) Tuple._extend
+  extends EVERY element with its base counterpart: the element loops call
+  extend unconditionally."""
+  idx = ctx.index
+  f = idx.func(VS + 'ValueSpecBase.apply')
+  g = C.cfg_of(f.node)
+  frozen_tests = [n for n in g.nodes if n.kind == 'test' and any(
+      isinstance(x, ast.Attribute) and x.attr == 'frozen' for x in ast.walk(n.ast))]
+  w = g.can_skip(g.entry, lambda n: n in frozen_tests) if frozen_tests else 'no frozen test'
+  ctx.ob('C04.i', f.fq + '#frozen-first', w is None,
+         'no value is accepted (no normal return) before the frozen test: a frozen spec accepts its frozen value only',
+         f.loc, f'a path returns without consulting `frozen`: {w}')
+  # (j)
+  bad = []
+  nw = 0
+  m = idx.module('pyglove.core.typing.class_schema')
+  for fn in m.funcs.values():
+    for st in ast.walk(fn.node):
+      if isinstance(st, ast.Assign) and any(isinstance(t, ast.Attribute) and t.attr == '_origin' for t in st.targets):
+        nw += 1
+        if fn.name not in ('__init__', 'set_origin'):
+          bad.append(f'{fn.qualname}:{st.lineno} `{A.unparse(st, 50)}`')
+  ctx.ob('C04.i', 'pyglove.core.typing.class_schema.Field#origin-writers', nw >= 2 and not bad,
+         'Field._origin is written only by the constructor and set_origin (an overriding field keeps the origin of the '
+         'class that overrides it)', m.relpath + ':1', '; '.join(bad) or 'origin writers not found')
+  # (k)
+  f = idx.func(VS + 'Tuple._extend')
+  problems = []
+  n = 0
+  for h in S.helper_closure(idx, f):
+    for lp in [x for x in ast.walk(h.node) if isinstance(x, ast.For)]:
+      calls = [c for c in A.calls_in(lp) if isinstance(c.func, ast.Attribute) and c.func.attr == 'extend' and len(c.args) == 1]
+      if not calls:
+        continue
+      n += 1
+      for c in calls:
+        # the call statement is a direct statement of the loop body
+        direct = any(isinstance(st, ast.Expr) and st.value is c for st in lp.body)
+        if not direct:
+          problems.append(f'line {c.lineno}: `{A.unparse(c, 50)}` is conditional inside the element loop: some elements '
+                          f'keep constraints looser than their base')
+      if any(isinstance(x, (ast.Break, ast.Continue, ast.Return)) for x in ast.walk(lp)):
+        problems.append(f'line {lp.lineno}: the element loop can stop or skip')
+  ctx.ob('C04.i', f.fq + '#every-element', n >= 2 and not problems,
+         'Tuple._extend extends every element with its base counterpart (unconditionally inside the element loops)',
+         f.loc, '; '.join(problems) or f'only {n} element loops found')
+
+
 def run(ctx):
   ctx.consult(*FILES)
+  rule_i(ctx)
   from sa.rejections import REJECTIONS as _REJ
   S.rejection_census_obligations(ctx, 'C04.r', _REJ['C04'], floor=40)
   rule_a(ctx)
